@@ -33,6 +33,18 @@ def nextPow2W (w n : Nat) : Nat :=
   else if isPow2 n then n
   else npLoop w w 1 n
 
+/-- the loop spelled `while (result <= n)` (`le = true`) or `while (result < n)` -/
+def npLoopV (le : Bool) (w : Nat) : Nat → Nat → Nat → Nat
+  | 0, r, _ => r
+  | fuel + 1, r, n => if (if le then r ≤ n else r < n) then npLoopV le w fuel ((r <<< 1) % 2 ^ w) n else r
+
+/-- `next_power_of_two` with the saturation test spelled `n > max` (`strict = true`) or `n >= max`, and either loop test;
+    `NextPow2.nextPow2V_eq`: all four spellings are the same function -/
+def nextPow2V (strict le : Bool) (w n : Nat) : Nat :=
+  if (if strict then n > maxPow2 w else n ≥ maxPow2 w) then maxPow2 w
+  else if isPow2 n then n
+  else npLoopV le w w 1 n
+
 /-- `next_power_of_two<T>(n)` for a `w`-bit *signed* `T` (`w ≤ 64`), `-2^(w-1) ≤ n < 2^(w-1)`:
     `numeric_limits<T>::max() = 2^(w-1) - 1`, the test `is_power_of_two(static_cast<uint64_t>(n))` sees the
     sign-extended value, the loop starts at `1` and is not entered for `n ≤ 1`. -/
@@ -62,6 +74,16 @@ def boundedCtor (w req pct : Nat) : BoundedCtor :=
     bytesPerBatch := ((cap * pct) % 2 ^ prodWidth w) / 100,  -- through `double`, exact below 2^53
     allocBytes := (2 * cap) % 2 ^ 64 }
 
+/-- `_checked_capacity` (repair of F32): a capacity whose doubled byte count does not fit 64 bits —
+    `static_cast<uint64_t>(c) > (numeric_limits<uint64_t>::max() >> 1)` — is rejected with a `QuillError` before any storage
+    exists. `rejectsOversized` is extracted from the header (`false` = the pinned constructor, which never rejects). -/
+def ctorRejects (rejectsOversized : Bool) (w req : Nat) : Bool :=
+  rejectsOversized && decide (nextPow2W w req > (2 ^ 64 - 1) >>> 1)
+
+/-- the constructor's outcome: `none` = throws before allocating, `some c` = the queue it builds -/
+def boundedCtorR (rejectsOversized : Bool) (w req pct : Nat) : Option BoundedCtor :=
+  if ctorRejects rejectsOversized w req then none else some (boundedCtor w req pct)
+
 /-- the x86-only constructor guard `if (_capacity < 1024) throw` (compiled only with `QUILL_X86ARCH`) -/
 def x86GuardThrows (cap : Nat) : Bool := decide (cap < 1024)
 
@@ -83,6 +105,13 @@ def handleFull (cap nbytes maxCap : Nat) : HF :=
   match handleFullCap cap nbytes with
   | none => .hang
   | some c => if c > maxCap then (if nbytes > maxCap then .throw else .null) else .alloc (nextPow2W 64 c)
+
+/-- with the repaired bounded constructor a growth to `2^63` throws (the node constructor rejects it) instead of building a node
+    without storage -/
+def handleFullR (rejectsOversized : Bool) (cap nbytes maxCap : Nat) : HF :=
+  match handleFull cap nbytes maxCap with
+  | .alloc c => if ctorRejects rejectsOversized 64 c then .throw else .alloc c
+  | x => x
 
 /-- `shrink(c)`: `if (c > (capacity >> 1)) return; new Node{c}` -/
 def shrinkCap (cap c : Nat) : Option Nat := if c > cap >>> 1 then none else some (nextPow2W 64 c)
